@@ -403,7 +403,8 @@ def stream_position(ctx, R="R-C11-stream-position"):
                     whence = c.args[1] if len(c.args) > 1 else astq.kw(c, "whence")
                     restored = c.args and isinstance(c.args[0], ast.Name) and c.args[0].id in saved and whence is None
                     relative = whence is not None and astq.text(whence) in ("1", "os.SEEK_CUR", "io.SEEK_CUR")
-                    if not is_decoder:
+                    own_decoder = f.module.name.endswith("_sphere")  # the package's own decoder: it, too, reads from where the stream stands
+                    if not is_decoder or own_decoder:
                         ctx.check(bool(restored or relative), R, f, c, "the stream is only ever moved back to a position saved with tell()",
                                   "%s moves the caller's stream to an absolute position before it reaches the decoder: a stream positioned past other "
                                   "data (records written back to back, an offset into a pack file) is decoded from the wrong place" % astq.text(c))
